@@ -650,7 +650,8 @@ inductive Op
   | seqBegin (tag cl k : Nat)
   | seqEnd (tag : Nat)
   /-- 40 OPEN until the lock is dropped (`opOpen`, `startTransaction`, head of `txOpen`).
-  `how`: 0 nocreate, 1 unchecked, 2 unchecked+truncate, 3 guarded; `claim`: 0 NULL, 1 FH, 2 PREVIOUS. -/
+  `how`: 0 nocreate, 1 unchecked, 2 unchecked+truncate, 3 guarded; `claim`: 0 NULL, 1 FH, 2 PREVIOUS,
+  3 PREVIOUS with a delegation type other than OPEN_DELEGATE_NONE. -/
   | open40a (tag cl key seq acc deny how claim fh name : Nat)
   /-- 40 the `VirtualOpenChild` / `VirtualOpenSelf` call of `txOpen` -/
   | open40b (tag : Nat)
@@ -822,11 +823,18 @@ def confirmedClient (s : State) (cl : Nat) : Option Client :=
   | some c => if c.confirmed then some c else none
   | none => none
 
-/-- `nfs40CompareStateSeqID` / `nfs41CompareStateSeqID` (values far below 2^31). -/
+/-- `nextSeqID` (40) / `incrementSeqID` (41): seqids are `uint32`, `2^32-1` is followed by 1
+(0 is reserved, RFC 7530 9.1.3 / RFC 8881 8.2.2). -/
+def nextSeq (n : Nat) : Nat := if n == 4294967295 then 1 else n + 1
+
+/-- `nfs40CompareStateSeqID` / `nfs41CompareStateSeqID` on `uint32` values:
+equal (41: or the client sent 0) is fine; otherwise `int32(client - server) > 0`, i.e. the
+client's value lies up to 2^31-1 ahead modulo 2^32, is NFS4ERR_BAD_STATEID (a seqid from the
+future), anything else NFS4ERR_OLD_STATEID. -/
 def cmpSeq (ver client server : Nat) : Nat :=
   if ver == 41 && client == 0 then St.ok
   else if client == server then St.ok
-  else if client > server then St.badStateid
+  else if (client + 4294967296 - server) % 4294967296 < 2147483648 then St.badStateid
   else St.oldStateid
 
 /-- Result of looking up an open / lock state ID. -/
@@ -877,6 +885,25 @@ def findLock (s : State) (q lsid lsseq fh : Nat) : Found :=
         else if !(fhIsFile fh && fhIndex fh == f.file) then { st := St.badStateid }
         else { st := cmpSeq s.ver lsseq (seqOf s lsid), f := some f, l := some l }
 
+/-- `getOpenedLeafWithRegularStateID` (40 l. 862, 41 l. 1726): the open-owner file whose share
+reservation READ / WRITE / SETATTR with a regular state ID may clone, or the error.  An open
+state ID needs the wanted bits in the open's current `shareAccess`; if the ID is not an open
+state ID (NFS4ERR_BAD_STATEID) it is tried as a lock state ID, which needs the bits in the
+mask captured when the lock-owner file was created; otherwise NFS4ERR_OPENMODE. -/
+def ioTarget (s : State) (q sid sseq fh : Nat) (want : Mask) : Nat × Option OFile :=
+  let r := findOpen s q sid sseq fh false
+  if r.st == St.ok then
+    match r.f with
+    | some f => if !want.subset f.share then (St.openmode, none) else (St.ok, some f)
+    | none => (St.badStateid, none)
+  else if r.st == St.badStateid then
+    let rl := findLock s q sid sseq fh
+    if rl.st != St.ok then (rl.st, none)
+    else match rl.f, rl.l with
+      | some f, some l => if !want.subset l.share then (St.openmode, none) else (St.ok, some f)
+      | _, _ => (St.badStateid, none)
+  else (r.st, none)
+
 /-- `transactionShouldComplete`. -/
 def shouldComplete (st : Nat) : Bool :=
   st != St.staleClientid && st != 10023 && st != St.badStateid && st != St.badSeqid &&
@@ -919,10 +946,10 @@ def startTx (cl key seq policy : Nat) : PlanM TxStart := do
       if seq == o.lastSeq then return .replay kind out sid sseq
     | none => pure ()
     if o.confirmed then
-      if seq != o.lastSeq + 1 then return .bad
+      if seq != nextSeq o.lastSeq then return .bad
     else
       if policy == 0 then
-        if seq != o.lastSeq + 1 then return .bad
+        if seq != nextSeq o.lastSeq then return .bad
       else if policy == 1 then return .bad
       else
         forgetLast cl key
@@ -953,7 +980,7 @@ def completeTx (cl key seq kind st : Nat) (out : String) (sid sseq : Nat) (close
 def sidStr (sid seq : Nat) : String := s!"sid={sid}.{seq}"
 
 /-- 40 `isNextStateID(cached, arg)`. -/
-def isNext (csid cseq sid sseq : Nat) : Bool := csid == sid && cseq == sseq + 1
+def isNext (csid cseq sid sseq : Nat) : Bool := csid == sid && cseq == nextSeq sseq
 
 def lockTy (ty : Nat) : Option BRL.Ty :=
   if ty == 1 || ty == 3 then some .shared else if ty == 2 || ty == 4 then some .excl else none
@@ -1144,12 +1171,13 @@ def planOp (op : Op) : PlanM Unit := do
             else if claim == 0 then
               modProto fun p => { p with otx := (tag, cl, key, seq, claim, acc, how * 1000000 + fh * 1000 + name) :: p.otx }
               say "go"
-            else if claim == 2 then
+            else if claim == 2 || claim == 3 then
+              -- CLAIM_PREVIOUS (3: with a delegation type other than OPEN_DELEGATE_NONE)
               if fh == 0 then fin St.nofilehandle
               else if fhIsDir fh then fin St.isdir
               else
                 let s ← cur
-                if !s.files.any (fun f => f.live && f.cl == cl && f.owner == key && f.file == fhIndex fh) then fin St.reclaimBad
+                if claim == 3 || !s.files.any (fun f => f.live && f.cl == cl && f.owner == key && f.file == fhIndex fh) then fin St.reclaimBad
                 else if how == 3 then fin St.exist
                 else
                   modProto fun p => { p with otx := (tag, cl, key, seq, claim, acc, how * 1000000 + fh * 1000 + name) :: p.otx }
@@ -1192,9 +1220,9 @@ def planOp (op : Op) : PlanM Unit := do
           match s.files.find? (fun f => f.live && f.cl == cl && f.owner == key && f.file == t.leaf) with
           | some f =>
             emit (.openUpgrade tag f.sid)
-            setSeq f.sid (seqOf s f.sid + 1)
-            let out := s!"st=0 {sidStr f.sid (seqOf s f.sid + 1)} conf={if conf then 0 else 1} leaf={t.leaf}"
-            completeTx cl key seq Kind.openK St.ok out f.sid (seqOf s f.sid + 1) none
+            setSeq f.sid (nextSeq (seqOf s f.sid))
+            let out := s!"st=0 {sidStr f.sid (nextSeq (seqOf s f.sid))} conf={if conf then 0 else 1} leaf={t.leaf}"
+            completeTx cl key seq Kind.openK St.ok out f.sid (nextSeq (seqOf s f.sid)) none
             emit (.holdEnd tag)
             say out
           | none =>
@@ -1233,13 +1261,15 @@ def planOp (op : Op) : PlanM Unit := do
     match s.proto.otx.find? (fun t => t.1 == tag), s.getTemp tag with
     | some (_, cl, key, _, claim, _, _), some t =>
       modProto fun p => { p with otx := p.otx.filter (fun t => t.1 != tag) }
-      match s.files.find? (fun f => f.live && f.cl == cl && f.owner == key && f.file == t.leaf) with
+      match (if claim == 3 then none else s.files.find? (fun f => f.live && f.cl == cl && f.owner == key && f.file == t.leaf)) with
       | some f =>
         emit (.openUpgrade tag f.sid)
-        setSeq f.sid (seqOf s f.sid + 1)
-        status St.ok; say (sidStr f.sid (seqOf s f.sid + 1)); say s!"leaf={t.leaf}"
+        setSeq f.sid (nextSeq (seqOf s f.sid))
+        status St.ok; say (sidStr f.sid (nextSeq (seqOf s f.sid))); say s!"leaf={t.leaf}"
       | none =>
-        if claim == 2 then
+        -- CLAIM_PREVIOUS without state to reclaim, or with a delegation type: the leaf that was
+        -- opened already is closed again (`ll.leaves = append(…)`)
+        if claim == 2 || claim == 3 then
           emit (.tempToPend tag)
           status St.reclaimBad
         else
@@ -1274,7 +1304,7 @@ def planOp (op : Op) : PlanM Unit := do
             match s.getOO cl key with
             | some o => emit (.ooSet { o with confirmed := true })
             | none => pure ()
-            let n := seqOf s sid + 1
+            let n := nextSeq (seqOf s sid)
             setSeq sid n
             let out := s!"st=0 {sidStr sid n}"
             completeTx cl key oseq Kind.openConfirm St.ok out sid n none
@@ -1310,7 +1340,7 @@ def planOp (op : Op) : PlanM Unit := do
                 if !new.subset f.share || deny != 0 then fin St.inval
                 else
                   emit (.downgradeOpen sid new)
-                  let n := seqOf s sid + 1
+                  let n := nextSeq (seqOf s sid)
                   setSeq sid n
                   let out := s!"st=0 {sidStr sid n}"
                   completeTx cl key oseq Kind.downgrade St.ok out sid n none
@@ -1330,7 +1360,7 @@ def planOp (op : Op) : PlanM Unit := do
           else if !new.subset f.share || deny != 0 then status St.inval
           else
             emit (.downgradeOpen f.sid new)
-            let n := seqOf s f.sid + 1
+            let n := nextSeq (seqOf s f.sid)
             setSeq f.sid n
             status St.ok; say (sidStr f.sid n)
             flushAll
@@ -1359,7 +1389,7 @@ def planOp (op : Op) : PlanM Unit := do
               status r.st
             else
               closeStart sid
-              let n := seqOf s sid + 1
+              let n := nextSeq (seqOf s sid)
               setSeq sid n
               let out := s!"st=0 {sidStr sid n}"
               completeTx cl key oseq Kind.close St.ok out sid n (some sid)
@@ -1419,7 +1449,7 @@ def planOp (op : Op) : PlanM Unit := do
                     if kind == Kind.lock then fin ((out.drop 3).takeWhile Char.isDigit).toNat! out 0 0
                     else fin St.badSeqid s!"st={St.badSeqid}" 0 0
                   | none =>
-                    if !initial && lseq != lo.lastSeq + 1 then fin St.badSeqid s!"st={St.badSeqid}" 0 0
+                    if !initial && lseq != nextSeq lo.lastSeq then fin St.badSeqid s!"st={St.badSeqid}" 0 0
                     else
                       let lsid := s.nextId
                       emit (.addLofs sid lo.id)
@@ -1475,7 +1505,7 @@ def planOp (op : Op) : PlanM Unit := do
                   pure n
               emit (.lockSet f.sid lsid lk)
               let s ← cur
-              let n := seqOf s lsid + 1
+              let n := nextSeq (seqOf s lsid)
               setSeq lsid n
               status St.ok; say (sidStr lsid n)
   | .lockOld q lsid lsseq fh lseq ty off len =>
@@ -1500,7 +1530,7 @@ def planOp (op : Op) : PlanM Unit := do
               | some (kind, out, csid, cseq) =>
                 if kind == Kind.lock && (csid == 0 || isNext csid cseq lsid lsseq) then say out else status St.badSeqid
               | none =>
-                if lseq != lo.lastSeq + 1 then status St.badSeqid
+                if lseq != nextSeq lo.lastSeq then status St.badSeqid
                 else
                   let r := findLock s q lsid lsseq fh
                   let fin (st : Nat) (out : String) (rsid rseq : Nat) : PlanM Unit := do
@@ -1514,7 +1544,7 @@ def planOp (op : Op) : PlanM Unit := do
                     match lk with
                     | some lk =>
                       emit (.lockSet f0.sid lsid lk)
-                      let n := seqOf s lsid + 1
+                      let n := nextSeq (seqOf s lsid)
                       setSeq lsid n
                       fin St.ok s!"st=0 {sidStr lsid n}" lsid n
                     | none =>
@@ -1533,7 +1563,7 @@ def planOp (op : Op) : PlanM Unit := do
           match lk with
           | some lk =>
             emit (.lockSet f.sid lsid lk)
-            let n := seqOf s lsid + 1
+            let n := nextSeq (seqOf s lsid)
             setSeq lsid n
             status St.ok; say (sidStr lsid n)
           | none =>
@@ -1582,7 +1612,7 @@ def planOp (op : Op) : PlanM Unit := do
               | some (kind, out, csid, cseq) =>
                 if kind == Kind.locku && (csid == 0 || isNext csid cseq lsid lsseq) then say out else status St.badSeqid
               | none =>
-                if lseq != lo.lastSeq + 1 then status St.badSeqid
+                if lseq != nextSeq lo.lastSeq then status St.badSeqid
                 else
                   let r := findLock s q lsid lsseq fh
                   let fin (st : Nat) (out : String) (rsid rseq : Nat) : PlanM Unit := do
@@ -1596,7 +1626,7 @@ def planOp (op : Op) : PlanM Unit := do
                     | none => fin St.inval s!"st={St.inval}" 0 0
                     | some (a, b) =>
                       emit (.lockSet f0.sid lsid ⟨a, b, lo.id, .unlocked⟩)
-                      let n := seqOf s lsid + 1
+                      let n := nextSeq (seqOf s lsid)
                       setSeq lsid n
                       fin St.ok s!"st=0 {sidStr lsid n}" lsid n
     else
@@ -1610,7 +1640,7 @@ def planOp (op : Op) : PlanM Unit := do
           | none => status St.inval
           | some (a, b) =>
             emit (.lockSet f.sid lsid ⟨a, b, l.lo, .unlocked⟩)
-            let n := seqOf s lsid + 1
+            let n := nextSeq (seqOf s lsid)
             setSeq lsid n
             status St.ok; say (sidStr lsid n)
       | _, _ => status r.st
@@ -1676,20 +1706,7 @@ def planOp (op : Op) : PlanM Unit := do
     else
       if v40 then enter
       let s ← cur
-      let r := findOpen s q sid sseq fh false
-      let target : Nat × Option OFile :=
-        if r.st == St.ok then
-          match r.f with
-          | some f => if !want.subset f.share then (St.openmode, none) else (St.ok, some f)
-          | none => (St.badStateid, none)
-        else if r.st == St.badStateid then
-          let rl := findLock s q sid sseq fh
-          if rl.st != St.ok then (rl.st, none)
-          else match rl.f, rl.l with
-            | some f, some l => if !want.subset l.share then (St.openmode, none) else (St.ok, some f)
-            | _, _ => (St.badStateid, none)
-        else (r.st, none)
-      match target with
+      match ioTarget s q sid sseq fh want with
       | (_, some f) =>
         emit (.ioBegin tag f.sid want v40)
         say "go"
